@@ -169,6 +169,8 @@ class RefModel:
             self._storage(a)
         elif typ == "OrderBook":
             self._orderbook(a)
+        elif typ in ("Plant", "CHPAsset"):
+            self._plant(a)
         else:
             raise Unsupported("asset type %s not modelled by R2" % typ)
 
@@ -439,6 +441,83 @@ class RefModel:
                 self._addcost(name, t, {x: capa * pr * g.dt[t] * disc[t]})
         if node not in self.nodes:
             self.nodes.append(node)
+
+    def _plant(self, a):
+        """plant / CHP for a FIXED on/off word (options['words'][name], one entry per window step).
+        power p_t, heat h_t >= 0; virtual output v = p + conv*h; off: v = 0; on: min*dt <= v <= max*dt;
+        |v_t - v_(t-1)| <= ramp*dt incl. the first step vs. last_dispatch; h <= share*p;
+        fuel node gets -(v/eff + consumption_if_on*dt*on + start_fuel*start); costs price*v (discounted),
+        running_costs*dt per on step, start_costs per off->on transition."""
+        from . import uc
+        lp, g = self.lp, self.g
+        name = a["name"]
+        words = self.opt.get("words") or {}
+        if name not in words:
+            raise Unsupported("plant without a fixed on/off word")
+        W = self._window(a)
+        word = list(words[name])
+        if len(word) != len(W):
+            raise Unsupported("word length")
+        disc = self._disc(a)
+        price = self._vec(a.get("price"), W) if a.get("price") else {t: 0.0 for t in W}
+        lo = self._vec(a.get("min_cap", 0.0), W)
+        hi = self._vec(a.get("max_cap", 0.0), W)
+        is_chp = a["type"] == "CHPAsset"
+        nodes = a["nodes"]
+        n_power = nodes[0]
+        n_heat = nodes[1] if is_chp else None
+        n_fuel = (nodes[2] if len(nodes) == 3 else None) if is_chp else (nodes[1] if len(nodes) == 2 else None)
+        conv = self._vec(a.get("conversion_factor_power_heat", 1.0), W, default=1.0)
+        share = self._vec(a.get("max_share_heat"), W, default=1.0) if a.get("max_share_heat") is not None else None
+        step0 = g.dt[W[0]] if W else 1.0
+        run_steps = uc.steps(a.get("time_already_running", 0) or 0, step0)
+        off_steps = uc.steps(a.get("time_already_off", 0) or 0, step0)
+        init = uc.initial_state(run_steps, off_steps)
+        st = set(uc.starts(word, init))
+        ramp = a.get("ramp")
+        last = float(a.get("last_dispatch", 0.0) or 0.0)
+        start_costs = self._vec(a.get("start_costs", 0.0), W, default=0.0)
+        running = self._vec(a.get("running_costs", 0.0), W, default=0.0)
+        if n_fuel is not None:
+            eff = self._vec(a.get("fuel_efficiency", 1.0), W, default=1.0)
+            cons = self._vec(a.get("consumption_if_on", 0.0), W, default=0.0)
+            sfuel = self._vec(a.get("start_fuel", 0.0), W, default=0.0)
+        prev = None
+        self.aux[name] = dict(p={}, h={}, W=W, word=word, starts=sorted(st))
+        for k, t in enumerate(W):
+            on = word[k]
+            p = lp.var(0.0, hi[t] * g.dt[t] if on else 0.0)
+            v = {p: 1.0}
+            self.aux[name]["p"][t] = p
+            self._addflow(name, n_power, t, {p: 1.0})
+            if is_chp:
+                hmax = (share[t] * hi[t] * g.dt[t]) if share is not None else hi[t] * g.dt[t] / conv[t]
+                h = lp.var(0.0, hmax if on else 0.0)
+                v[h] = conv[t]
+                self.aux[name]["h"][t] = h
+                self._addflow(name, n_heat, t, {h: 1.0})
+                if share is not None:
+                    lp.row({h: 1.0, p: -share[t]}, -INF, 0.0)
+            if on:
+                lp.row(v, lo[t] * g.dt[t], hi[t] * g.dt[t])
+            self._addcost(name, t, {j: disc[t] * price[t] * c for j, c in v.items()},
+                          const=(running[t] * g.dt[t] if on else 0.0) + (start_costs[t] if k in st else 0.0))
+            if n_fuel is not None:
+                fl = {j: -c / eff[t] for j, c in v.items()}
+                constf = -(cons[t] * g.dt[t] if on else 0.0) - (sfuel[t] if k in st else 0.0)
+                # constant flows are modelled with a fixed variable
+                one = lp.var(1.0, 1.0)
+                fl[one] = constf
+                self._addflow(name, n_fuel, t, fl)
+            if ramp is not None:
+                rs = ramp * step0
+                if prev is None:
+                    lp.row(v, last * step0 - rs, last * step0 + rs)
+                else:
+                    co = dict(v)
+                    expr_add(co, prev, -1.0)
+                    lp.row(co, -rs, rs)
+            prev = v
 
     # ------------------------------------------------------------------ balance / solve
     def _balance(self):
